@@ -161,6 +161,7 @@ pub fn event(u: &mut Unstructured) -> Result<Ev> {
 /// libFuzzer entry: decode, run the file + OTLP oracles, abort (panic) on a violation that is not a
 /// listed known finding.
 pub fn fuzz_entry_value_to_sinks(data: &[u8]) {
+    crate::QUIET_CAUGHT_PANICS.store(true, std::sync::atomic::Ordering::Relaxed);
     let mut u = Unstructured::new(data);
     let Ok(ev) = event(&mut u) else { return };
     let r = vcore::with_cx("C13", |cx| check_event(&ev, cx, Sinks { file: true, otlp: true, term: false }));
